@@ -678,7 +678,7 @@ impl<'a> World<'a> {
                 self.rec.probe("new_generation");
                 Ok(())
             }
-            Op::Rollback { m } => {
+            Op::Rollback { m, quiet } => {
                 let obj = match self.muts[*m].as_mut() {
                     Some(o) if o.gens.len() > 1 => o,
                     _ => return Ok(()),
@@ -696,7 +696,12 @@ impl<'a> World<'a> {
                 obj.gens.pop();
                 obj.dead = false;
                 self.rec.probe("rollback");
-                let r = self.check_mut(*m, "older-generation", Oracle::Leak);
+                let r = if *quiet && matches!(self.muts[*m].as_ref().map(|o| &o.real), Some(MutReal::Api(..))) {
+                    self.rec.probe("rollback_unobserved");
+                    Ok(())
+                } else {
+                    self.check_mut(*m, "older-generation", Oracle::Leak)
+                };
                 if let Some(o) = self.muts[*m].as_mut() {
                     o.untouched_outer.pop();
                 }
@@ -1744,7 +1749,7 @@ impl<'a> World<'a> {
             }
             self.check_mut(m, "newest-generation", Oracle::FullCheck)?;
             while self.muts[m].as_ref().map_or(0, |o| o.gens.len()) > 1 {
-                self.apply(&Op::Rollback { m })?;
+                self.apply(&Op::Rollback { m, quiet: false })?;
             }
             self.check_origin(m)?;
         }
